@@ -19,6 +19,7 @@ sop updi <hex|-> <hex|-> <0|1> <n|k|x|e> → the same for UpdatePublication(id, 
 sop delete <hex|-> <0|1>           → ok <hex> | notfound               (1: allow-missing)
 sop initial <hex|->                → ok <hex> | exists | rejected      (a WithInitial… record)
 sop hook <hex|-> <w|r|z>           → ok <hex> | failed | notfound | rejected   (Update*(message, InterceptBefore(cb)) without mask: the callback leaves the written key / makes the message a copy of the stored one and records an error / drops the key and records an error; vending Dispense)
+sop dispense <hex|-> <u|-> <u|-> <u> → the same for the callback of vending DispenseInstantly: units (enum numbers) Used / Remaining are kept in ("-": not kept), unit dispensed
 sop raw <hex|-> <hex|->            → ok <hex> | exists                 (resource.WithInitialRecord(storage id, message with that key field))
 listing                            → <hex,…|->        (Collection.List: items by storage id, shown by key field)
 page <gt|ge> <size> <E|B|K<hex>>   → ok <hex,…|-> <N|T<hex>> <total> | err <Code> | panic
@@ -152,6 +153,14 @@ def stepSt (st : St) (toks : List String) : Option (St × String) :=
     let id ← unhexId? id
     let g ← (if g = "w" then some keepNew else if g = "r" then some restoreOld else if g = "z" then some dropKey else none)
     let r := st.recs.hstep st.f (.hooked id g)
+    pure ({ st with recs := r.1, keys := flisting r.1 }, match r.2 with | .res x => showRes x | .failed => "failed")
+  | ["sop", "dispense", id, used, rem, q] => do
+    -- vending Dispense of a stock that keeps Used / Remaining in the given units ("-": not kept), quantity in unit q
+    let id ← unhexId? id
+    let used ← (if used = "-" then some none else (parseNat? used).map some)
+    let rem ← (if rem = "-" then some none else (parseNat? rem).map some)
+    let q ← parseNat? q
+    let r := st.recs.hstep st.f (.hooked id (dispenseHook used rem q))
     pure ({ st with recs := r.1, keys := flisting r.1 }, match r.2 with | .res x => showRes x | .failed => "failed")
   | ["sop", "raw", sid, key] => do
     -- resource.WithInitialRecord(sid, message whose key field is `key`): a raw resource option, not an API of the models
